@@ -331,8 +331,14 @@ func (c *Controller) resolveMatch(ls *linkState, hashBytes []byte, ms link.Mount
 		}
 	})
 
+	if len(matches) == 0 {
+		return
+	}
+
+	// All matching solicitations share one wrapper: the first to accept owns
+	// the stream, the others are told it was already accepted.
+	sms := link_solicit.NewSolicitMountedStream(ms)
 	for _, ss := range matches {
-		sms := link_solicit.NewSolicitMountedStream(ms)
 		if _, ok := ss.handler.AddValue(sms); ok {
 			ls.le.WithField("hash", hashHex).Debug("emitted SolicitMountedStream value")
 		}
